@@ -1127,4 +1127,96 @@ theorem specHdr_loop (flags : Nat) (h : Hdr) (n : Nat) :
   · simp only [f1, f2, f3, f4]; exact k
   · exact k
 
+/-! ### shape of the closed-form result -/
+
+/-- bytes left in the stream (`file_len - file_pos`) -/
+def avail (f : Option Bytes) : Nat := (f.getD []).length
+
+/-- the cases in which nothing is loaded (`return 0`, header and `data` untouched) -/
+def Skips (flags : Nat) (h : Hdr) (skip : Bool) (f : Option Bytes) : Prop :=
+  fl flags SAMPLE_FLAG_ADLIB = true ∨ h.len ≤ 0 ∨ h.len > MAX_SAMPLE_SIZE ∨ skip = true ∨
+  (fl flags SAMPLE_FLAG_NOLOAD = false ∧
+    (f.isNone = true ∨ avail f = 0 ∨ (fl flags SAMPLE_FLAG_ADPCM = true ∧ avail f < 16)))
+
+instance (flags : Nat) (h : Hdr) (skip : Bool) (f : Option Bytes) : Decidable (Skips flags h skip f) := by
+  unfold Skips; infer_instance
+
+instance (flags : Nat) (h : Hdr) (buffer : Bytes) : Decidable (BufferOk flags h buffer) := by
+  unfold BufferOk; infer_instance
+
+def is16Of (h : Hdr) : Bool := sf h.flg XMP_SAMPLE_16BIT
+def stereoOf (h : Hdr) : Bool := sf h.flg XMP_SAMPLE_STEREO
+def frameLenOf (h : Hdr) : Nat := frameLen (is16Of h) (stereoOf h)
+
+/-- PCM bytes of the loaded sample -/
+def outBytes (flags : Nat) (h : Hdr) (f : Option Bytes) : Nat :=
+  if fl flags SAMPLE_FLAG_NOLOAD then h.len.toNat * frameLenOf h
+  else Spec.effBytes (fl flags SAMPLE_FLAG_ADPCM) (frameLenOf h) (h.len.toNat * frameLenOf h) (avail f)
+
+/-- frames of the loaded sample (`xxs->len` afterwards) -/
+def outLen (flags : Nat) (h : Hdr) (f : Option Bytes) : Nat := outBytes flags h f / frameLenOf h
+
+/-- the stored bytes the PCM is computed from -/
+def srcRaw (flags : Nat) (h : Hdr) (f : Option Bytes) (buffer : Bytes) : Bytes :=
+  if fl flags SAMPLE_FLAG_NOLOAD then buffer.take (outBytes flags h f)
+  else if fl flags SAMPLE_FLAG_ADPCM then Spec.adpcm (outBytes flags h f) ((f.getD []).take 16) ((f.getD []).drop 16)
+  else (f.getD []).take (outBytes flags h f)
+
+/-- bytes taken from the stream -/
+def consumedBytes (flags : Nat) (h : Hdr) (f : Option Bytes) : Nat :=
+  if fl flags SAMPLE_FLAG_NOLOAD then 0
+  else if fl flags SAMPLE_FLAG_ADPCM then 16 + (outBytes flags h f + 1) / 2
+  else outBytes flags h f
+
+theorem spec_load_ok (flags : Nat) (h : Hdr) (skip : Bool) (f : Option Bytes) (buffer : Bytes)
+    (hs : ¬ Skips flags h skip f) :
+    Spec.load flags h skip f buffer =
+      .ok (specHdr flags h (outLen flags h f))
+          (Spec.withGuards (frameLenOf h) (Spec.pcm flags (is16Of h) (stereoOf h) (outLen flags h f) (srcRaw flags h f buffer)))
+          (consumedBytes flags h f) := by
+  unfold Skips at hs
+  simp only [not_or, not_and] at hs
+  obtain ⟨h1, h2, h3, h4, h5⟩ := hs
+  unfold Spec.load
+  have c1 : ¬ (fl flags SAMPLE_FLAG_ADLIB = true ∨ h.len ≤ 0) := by simp [h1, h2]
+  have c2 : ¬ (h.len > (MAX_SAMPLE_SIZE : Int) ∨ skip = true) := by simp [h3, h4]
+  rw [if_neg c1, if_neg c2]
+  by_cases hN : fl flags SAMPLE_FLAG_NOLOAD = true
+  · simp [hN, specHdr, outLen, outBytes, srcRaw, consumedBytes, frameLenOf, is16Of, stereoOf]
+  · have hN' : fl flags SAMPLE_FLAG_NOLOAD = false := by simpa using hN
+    have := h5 hN'
+    obtain ⟨g1, g2, g3⟩ := this
+    have c3 : ¬ ((!fl flags SAMPLE_FLAG_NOLOAD) = true ∧ ((f.getD []).length = 0 ∨ f.isNone = true ∨
+        fl flags SAMPLE_FLAG_ADPCM = true ∧ (f.getD []).length < 16)) := by
+      simp only [avail] at g2 g3
+      simp [hN', g1, g2]; intro ha; have := g3 ha; omega
+    rw [if_neg c3]
+    simp [hN', specHdr, outLen, outBytes, srcRaw, consumedBytes, frameLenOf, is16Of, stereoOf, avail]
+
+theorem spec_load_skips (flags : Nat) (h : Hdr) (skip : Bool) (f : Option Bytes) (buffer : Bytes)
+    (hs : Skips flags h skip f) : ∃ c, Spec.load flags h skip f buffer = .skipped h c := by
+  unfold Spec.load
+  simp only
+  split
+  · exact ⟨_, rfl⟩
+  · split
+    · exact ⟨_, rfl⟩
+    · split
+      · exact ⟨_, rfl⟩
+      · rename_i c1 c2 c3
+        exfalso
+        unfold Skips at hs
+        rcases hs with hs | hs | hs | hs | ⟨hN, hs⟩
+        · exact c1 (Or.inl hs)
+        · exact c1 (Or.inr hs)
+        · exact c2 (Or.inl hs)
+        · exact c2 (Or.inr hs)
+        · apply c3
+          simp only [hN, Bool.not_false, true_and]
+          simp only [avail] at hs
+          rcases hs with hs | hs | hs
+          · exact Or.inr (Or.inl hs)
+          · exact Or.inl hs
+          · exact Or.inr (Or.inr hs)
+
 end Xmp.Sample
